@@ -52,3 +52,22 @@ func TestReproFileHandlerThreeFields(t *testing.T) {
 		t.Fatalf("got %v %v", pr, err)
 	}
 }
+
+// finding #22 (C16): a credential file mixing 2- and 3-field lines is rejected
+// as a whole (encoding/csv enforces the field count of the first record).
+func TestReproFileHandlerMixedLines(t *testing.T) {
+	p := writeFile(t, []string{"alice:" + fingerprintString("pw-a"), "bob:" + fingerprintString("pw-b") + ":tenant"})
+	defer os.Remove(p)
+	h, err := FileHandler(p)
+	if err != nil {
+		t.Fatalf("mixed 2- and 3-field file rejected: %v", err)
+	}
+	pr, err := h.Authenticate(context.Background(), ApplicationContext{Username: []byte("bob"), Password: []byte("pw-b")}, TransportContext{})
+	if err != nil || pr.MountPoint != "tenant" {
+		t.Fatalf("bob: %v %v", pr, err)
+	}
+	pr, err = h.Authenticate(context.Background(), ApplicationContext{Username: []byte("alice"), Password: []byte("pw-a")}, TransportContext{})
+	if err != nil || pr.MountPoint != DefaultMountPoint {
+		t.Fatalf("alice: %v %v", pr, err)
+	}
+}
